@@ -31,7 +31,10 @@ Definition b4_eqb (a b : b4) : bool :=
 Inductive obs :=
 | OEq (e : ecfg) (v : b4)
 (* cmp.And / cmp.Or over Equal(...) comparers: the components' own verdicts and the combination's *)
-| OComb (is_or : bool) (es : list ecfg) (comps : list b4) (v : b4).
+| OComb (is_or : bool) (es : list ecfg) (comps : list b4) (v : b4)
+(* cmp.Equal(t) for a combinator TREE t: ValueAnd / ValueOr nested to any depth over leaf comparers
+   (Logic.v ctree), e.g. ValueOr(TimeValueWithin(d), ValueAnd(FloatValueApprox(..), DurationValueWithin(..))) *)
+| OTree (t : ctree vcfg) (v : b4).
 
 (* one operation on a collection: [(id, Some v)] = Add (absent id) or Update (present id) storing v,
    [(id, None)] = Delete of a present id *)
@@ -69,6 +72,8 @@ Definition model_e (e : ecfg) : mcmp :=
   | EAnd vs => cmp_equal (map model_v vs)
   | EOr vs => cmp_equal [value_or (map model_v vs)]
   end.
+Definition model_t (t : ctree vcfg) : vcmp := tree_cmp model_v t.
+Definition model_tree (t : ctree vcfg) : mcmp := cmp_equal [model_t t].
 Definition four (f : mcmp) (x y : option cval) : b4 := (f x y, f y x, f x x, f y y).
 
 Definition strip_opt (x : option cval) : option cval := option_map strip x.
@@ -166,6 +171,7 @@ Definition agrees_obs (x y : option cval) (o : obs) : bool :=
   | OComb is_or es comps v =>
       list_eqb b4_eqb comps (map (fun e => four (model_e e) x y) es)
       && b4_eqb v (four ((if is_or then msg_or else msg_and) (map model_e es)) x y)
+  | OTree t v => b4_eqb v (four (model_tree t) x y)
   end.
 
 Definition bb_eqb (a b : bool * bool) : bool := Bool.eqb (fst a) (fst b) && Bool.eqb (snd a) (snd b).
@@ -208,6 +214,16 @@ Definition ideal_e (e : ecfg) : option cval -> option cval -> bool :=
   | EOr vs => spec_top ignored (leaf_or (map ideal_v vs))
   end.
 
+(* a tree's reference semantics: the ideal leaves combined by the reference conjunction / disjunction
+   of Spec.v (a member that does not apply to the pair of values at hand takes no part) *)
+Fixpoint ideal_t (t : ctree vcfg) : cval -> cval -> option bool :=
+  match t with
+  | TLeaf v => ideal_v v
+  | TAnd ts => leaf_and (map ideal_t ts)
+  | TOr ts => leaf_or (map ideal_t ts)
+  end.
+Definition ideal_tree (t : ctree vcfg) : option cval -> option cval -> bool := spec_top ignored (ideal_t t).
+
 Definition is_durp (c : vcfg) : bool := match c with VDurP _ => true | _ => false end.
 Definition cfg_vs (e : ecfg) : list vcfg := match e with EAnd vs | EOr vs => vs end.
 Definition has_durp (e : ecfg) : bool := existsb is_durp (cfg_vs e).
@@ -234,6 +250,9 @@ Definition ok_obs (x y : option cval) (ps : bool * bool) (o : obs) : bool :=
   | OEq e v => ok_eq x y ps e v
   | OComb is_or es comps v =>
       (List.length es =? List.length comps)%nat && b4_eqb v (fold4 is_or comps)
+  | OTree t v =>
+      let '(xy, yx, xx, yy) := v in
+      Bool.eqb xy yx && xx && yy && Bool.eqb xy (ideal_tree t x y) && Bool.eqb yx (ideal_tree t y x)
   end.
 
 (* delivered iff not equivalent (ideally) to the value the subscriber holds *)
@@ -325,7 +344,11 @@ Definition vcfg_guard (c : vcfg) : bool :=
   end.
 Definition ecfg_guard (e : ecfg) : bool := forallb vcfg_guard (cfg_vs e).
 Definition obs_guard (o : obs) : bool :=
-  match o with OEq e _ => ecfg_guard e | OComb _ es _ _ => forallb ecfg_guard es end.
+  match o with
+  | OEq e _ => ecfg_guard e
+  | OComb _ es _ _ => forallb ecfg_guard es
+  | OTree t _ => ecfg_guard (EAnd (tree_leaves t))
+  end.
 
 Definition guard_core (c : c16case) : bool :=
   match c with
@@ -368,6 +391,10 @@ Definition obs_class (x y : option cval) (o : obs) : option Z :=
       else if existsb is_dur (cfg_vs e) && (opt_sat x || opt_sat y) then Some 2
       else None
   | OComb _ _ _ _ => None
+  | OTree t _ =>
+      if existsb is_durp (tree_leaves t) then Some 1
+      else if existsb is_dur (tree_leaves t) && (opt_sat x || opt_sat y) then Some 2
+      else None
   end.
 
 Definition class_core (c : c16case) : option Z :=
